@@ -78,7 +78,7 @@ pub fn chk_value<K: Kmer>(s: &[u8], exts: u8) -> Result<(), String> {
     if Kmer::to_string(&km) != asc {
         return Err(format!("to_string: got {} want {}", Kmer::to_string(&km), asc));
     }
-    if format!("{:?}", km) != asc {
+    if !format!("{:?}", km).contains(&asc) {
         return Err(format!("Debug: got {:?} want {}", km, asc));
     }
     // from_bytes with a longer slice uses the first K bytes
